@@ -2315,6 +2315,19 @@ fn generate_constraints_stmt(
                     );
                 }
             }
+            // the code generator only knows how to read-modify-write array elements;
+            // a user-defined Index would need both index_get and index_set
+            if *assign_op != AssignOperator::Equal
+                && let ExprKind::IndexAccess(accessed, _) = &*lhs.kind
+                && let Some(accessed_ty) = TypeVar::from_node(ctx, accessed.node()).single()
+                && !matches!(accessed_ty, PotentialType::Nominal(_, Nominal::Array, _))
+            {
+                ctx.errors.push(Error::GenericWithNode {
+                    msg: "Compound assignment through a user-defined index is not supported. Write the assignment out in full"
+                        .to_string(),
+                    node: lhs.node(),
+                });
+            }
         }
         StmtKind::Break | StmtKind::Continue => {
             let enclosing_loop = ctx.loop_stack.last();
